@@ -1,14 +1,16 @@
-(* Properties/C11rpc.v -- C11, ONC-RPC half, on serialised calls: on a flow whose first
-   segment is identified as RPC, for EVERY cutting of the stream
+(* Properties/C11rpc.v -- C11, ONC-RPC half, on serialised calls: on a flow whose stream
+   is identified as RPC, for EVERY cutting of the stream
    (record mark ++ call ++ anything) into segments, the segments before the one that
    contains stream byte 44 + |credentials| get no payload, that segment gets the reply,
    and the reply is a function of the call and the contacted endpoint only
    ([first_reply], which decodes to the reply C16 expects). Afterwards the parser is
-   fresh: the remaining segments are handled as a new stream. The hypothesis on the
-   first segment excludes the known class short_first_segment (C11, Proofs/C11Witness.v).
+   fresh: the remaining segments are handled as a new stream. The cuts may fall inside the
+   protocol signature: the former hypothesis on the first segment (known class
+   short_first_segment) is gone, [proto_tbl_ok E] being the per-table obligation of
+   Properties/C11.v (C11_current_table).
    Statements only; proofs in Proofs/C11Rpc.v on top of Proofs/C11.v. *)
 From MS Require Import Rpc Proto Spec.RefXdr Spec.C16 Spec.AppView Spec.C11
-  Proofs.C11 Proofs.C16Parse Proofs.C16Reply Proofs.C11Rpc.
+  Instance Proofs.C11 Proofs.C11Witness Proofs.C16Parse Proofs.C16Reply Proofs.C11Rpc Proofs.C16Examples Proofs.C11Examples.
 
 Theorem C11_rpc_parse_fold :
   forall s a b, rpc_parse (rpc_parse s a) b = rpc_parse s (a ++ b).
@@ -16,10 +18,12 @@ Proof. exact C16Parse.rpc_parse_app. Qed.
 
 Theorem C11_rpc_first_call :
   forall E clk ci ip port c m0 m1 m2 m3 tail pre s post,
+    proto_tbl_ok E = true ->
     call_wf c = true -> (length (ip_octets ip) <= 16)%nat ->
     ci_ip_dst ci = Some ip -> ci_port_dst ci = Some port ->
-    tcp_first_id E (hd s pre) = Some PROTO_RPC_TCP ->
     concat (pre ++ s :: post) = [m0; m1; m2; m3] ++ ser_call c ++ tail ->
+    bytes_ok ([m0; m1; m2; m3] ++ ser_call c ++ tail) = true ->
+    tcp_first_id E ([m0; m1; m2; m3] ++ ser_call c ++ tail) = Some PROTO_RPC_TCP ->
     (length (concat pre) < 44 + length (rc_cred c))%nat ->
     (44 + length (rc_cred c) <= length (concat pre) + length s)%nat ->
     tcp_stream E clk ci tcb_new (pre ++ s :: post) =
@@ -49,7 +53,21 @@ Theorem C11_rpc_two_calls :
       Ok [Some (first_reply ip port c1); Some (first_reply ip port c2)].
 Proof. exact rpc_two_calls_two_segments. Qed.
 
+(* non-vacuity on the current tables: a GETPORT call cut inside the RPC/TCP signature, and
+   one byte per segment, get the reply the whole stream gets *)
+Theorem C11_rpc_cut_inside_signature :
+  bytes_ok x11_stream = true /\ call_wf x_getport = true /\
+  tcp_first_id the_env x11_stream = Some PROTO_RPC_TCP /\
+  tcp_first_id the_env (firstn 6 x11_stream) = None /\
+  concat [firstn 6 x11_stream; skipn 6 x11_stream] = x11_stream /\
+  payloads (tcp_stream the_env w11_clk w11_ci tcb_new [firstn 6 x11_stream; skipn 6 x11_stream]) =
+  payloads (tcp_stream the_env w11_clk w11_ci tcb_new [x11_stream]) /\
+  payloads (tcp_stream the_env w11_clk w11_ci tcb_new (singletons x11_stream)) =
+  [first_reply (V4 [10; 0; 0; 1]) 8080 x_getport].
+Proof. exact rpc_cut_inside_signature. Qed.
+
 Print Assumptions C11_rpc_parse_fold.
+Print Assumptions C11_rpc_cut_inside_signature.
 Print Assumptions C11_rpc_first_call.
 Print Assumptions C11_rpc_first_reply_decodes.
 Print Assumptions C11_rpc_reset_after_message.
